@@ -426,3 +426,15 @@ Definition fd_jac_colored_opts (stages : list (list mpoly)) (sel : list nat) (y0
   | None => VE 1
   | Some a => v_colored (fd_jac_colored (sysfun stages sel y0) base x a groups)
   end.
+
+(* per-variable approximation options (a component may declare different fd options per wrt variable;
+   a partial colouring covers only some of them) *)
+Definition fd_jac_varopts (stages : list (list mpoly)) (sel : list nat) (y0 base x : list Q)
+           (vars : list ((nat * nat) * ((string * string) * (Q * Q)))) : val :=
+  let datas := opt_all (map (fun v => approx_data_opts (fst (fst (snd v))) None (snd (fst (snd v)))
+                                        (fst (snd (snd v))) (snd (snd (snd v)))
+                                        (firstn (snd (fst v)) (skipn (fst (fst v)) x))) vars) in
+  match datas with
+  | None => VE 1
+  | Some ds => vrows (fd_jac_uncolored (sysfun stages sel y0) base x (combine (map fst vars) ds))
+  end.
